@@ -441,12 +441,12 @@ def run_case(case, R):
     if d == 1:
         R.hit("nth_default_monotone", 0)
     # ---- notional linearity ---------------------------------------------------------------------------------------------------------------
-    nt = float(rng.uniform(-3, 7))
+    nt = float(rng.uniform(-3, 7)) if case["seed"] % 4 else [0.0, 0, -0.0, 1e-12][case["seed"] // 4 % 4]        # (zero is a notional like any other)
     p1 = Product(payoff_underlying=U.Spot(), payoff=P.Vanilla(strike=k, payoff_type=P.PayoffType.CALL), maturity=1.0, notional=1.0)
     p2 = Product(payoff_underlying=U.Spot(), payoff=P.Vanilla(strike=k, payoff_type=P.PayoffType.CALL), maturity=1.0, notional=nt)
     R.hit("notional_linearity")
     if not (abs(float(p2(x)) - nt * float(p1(x))) <= 1e-12 * abs(nt) * x):
-        R.violation("notional-not-linear", f"notional {nt}: {p2(x)!r} vs {nt} * {p1(x)!r}", wit)
+        R.violation("notional-not-linear" + ("-zero-notional" if nt == 0 else ""), f"notional {nt!r}: {p2(x)!r} vs {nt!r} * {p1(x)!r}", wit)
     if nonzero:
         R.nontrivial_case(case["seed"])
     if case["seed"] % 50 == 0:
